@@ -13,6 +13,7 @@ import hv.symx.core  # noqa: F401  (puts /repo on sys.path, pre-imports hy)
 
 import ast
 import builtins
+import gc
 import itertools
 import multiprocessing
 import random
@@ -974,8 +975,14 @@ def run(chk):
     nchunk = chk.jobs * 3
     for prefix, cases in (("", d1), ("", d2), ("", d3), ("random/", dr)):
         jobs += [(prefix, c) for c in chunks(cases, nchunk)]
-    with multiprocessing.get_context("fork").Pool(chk.jobs) as pool:
-        parts = pool.map(_work, jobs, chunksize=1)
+    # (measured on the 16-core box: 4 to 8 workers give the shortest wall time; 16 only burn more CPU in the kernel)
+    gc.collect()
+    gc.freeze()               # the workers' collections then leave the inherited heap alone (no copy-on-write storm)
+    try:
+        with multiprocessing.get_context("fork").Pool(min(chk.jobs, 8)) as pool:
+            parts = pool.map(_work, jobs, chunksize=1)
+    finally:
+        gc.unfreeze()
     total, cans, nruns = {}, {"wrong-once": 0, "probe-seen": 0, "probe-tried": 0}, 0
     for agg, can, n in parts:
         _merge(total, agg)
